@@ -78,6 +78,21 @@ class Operand:
     def shape(self):
         return np.broadcast_shapes(*[np.shape(p) for p in self.parts])
 
+    def buffer(self):
+        """bytes of the caller-owned memory of the operand (None for immutable scalars)"""
+        o = self.obj
+        if isinstance(o, np.ndarray):                     # ndarray, Quantity, Angle, Phase
+            return (o.view(np.ndarray).tobytes(), bool(getattr(o, "imaginary", False)))
+        return None
+
+    def log(self):
+        """(re)log the operand: what it holds now is what later events are judged against"""
+        self.logged = self.buffer()
+        return self
+
+    def modified(self):
+        return getattr(self, "logged", None) is not None and self.buffer() != self.logged
+
     def x(self, shape, idx):
         """The X record of element idx after broadcasting to shape."""
         vals = [exact.frac(float(np.broadcast_to(p, shape)[idx])) for p in self.parts]
@@ -88,7 +103,7 @@ class Operand:
 
 def phase_operand(p, kind="phase"):
     v = p.view(np.ndarray)
-    return Operand(p, [np.array(v["int"]), np.array(v["frac"])], bool(p.imaginary), kind)
+    return Operand(p, [np.array(v["int"]), np.array(v["frac"])], bool(p.imaginary), kind).log()
 
 
 def make_phase(ph):
@@ -139,7 +154,7 @@ def make_other(ot):
         else:
             obj = np.array(ints, dtype=np.int64).reshape(ot.get("shape") or [len(ints)])
             part = part.reshape(obj.shape)
-        return Operand(obj, [part], False, k)
+        return Operand(obj, [np.array(part)], False, k).log()
     fl = np.array([fh(v) for v in vals], dtype=float)
     shape = ot.get("shape") or [len(fl)]
     if k == "pyfloat":
@@ -171,7 +186,7 @@ def make_other(ot):
         unit, scale = SCALED_UNITS[ot["unit"]](u)
         part = fl[0] if k == "dimscaled" else fl.reshape(shape)
         obj = u.Quantity(part * (1j if im else 1), unit)
-        return Operand(obj, [np.asarray(part)], im, k, scale=scale)
+        return Operand(obj, [np.array(part)], im, k, scale=scale).log()
     elif k == "cycleq":
         obj, part = (fl[0] * (1j if im else 1)) * u.cycle, fl[0]
     elif k == "cycleqarr":
@@ -181,7 +196,7 @@ def make_other(ot):
         obj, part = Angle(fl[0], u.cycle), fl[0]
     else:
         raise ValueError("unknown operand kind " + k)
-    return Operand(obj, [np.asarray(part)], im or k in COMPLEX, k)
+    return Operand(obj, [np.array(part)], im or k in COMPLEX, k).log()      # parts: private copies
 
 
 def res_elems(r, shape):
@@ -220,8 +235,9 @@ IOPS = {"add": operator.iadd, "sub": operator.isub, "mul": operator.imul, "div":
 DIVUFUNCS = {"mod": np.remainder, "divmod": np.divmod, "floordiv": np.floor_divide}
 
 
-def run_arith(rc):
-    """form "op": out of place; "iop": in-place operator on the phase (p += x,
+def run_arith(rc, pre=None):
+    """pre = (phase operand, other operand) built earlier and reused (run_seq).
+    form "op": out of place; "iop": in-place operator on the phase (p += x,
     p %= d); "out": the ufunc with out= a separate Phase target (real or
     imaginary, stale content); for remainder / divmod also "outself" (out= the
     dividend itself) and "outdiv" (out= the Phase divisor); divmod and
@@ -243,16 +259,16 @@ def run_arith(rc):
             other = y.kind if x.kind in ("phase", "phasearr") else x.kind
         form = "op"
     elif op in ("neg", "abs", "pos"):
-        p = phase_operand(make_phase(rc["ph"]))
-        fn = {"neg": operator.neg, "pos": operator.pos,
-              "abs": (np.abs if rc.get("np") else abs)}[op]
+        p = pre[0] if pre else phase_operand(make_phase(rc["ph"]))
+        absfn = {None: abs, False: abs, True: np.abs, "abs": abs, "np.abs": np.abs, "np.absolute": np.absolute,
+                 "np.fabs": np.fabs}[rc.get("np")]
+        fn = {"neg": operator.neg, "pos": operator.pos, "abs": absfn}[op]
         ops, other, args = [p], "phase", [p.obj]
         call = (lambda: fn(p.obj))
         if form == "iop":
             form = "out"
     else:
-        p = phase_operand(make_phase(rc["ph"]))
-        o = make_other(rc["ot"])
+        p, o = pre if pre else (phase_operand(make_phase(rc["ph"])), make_other(rc["ot"]))
         fn = BINOPS[op]
         ops = [p, o] if ord_ == "po" else [o, p]
         args = [x.obj for x in ops]
@@ -293,14 +309,17 @@ def run_arith(rc):
             if op == "divmod":
                 np.divmod(*args, out=(qt, target))
                 return qt, target
-            (DIVUFUNCS.get(op) or UFUNCS[op])(*args, out=target)
+            uf = np.fabs if (op == "abs" and rc.get("np") == "np.fabs") else (DIVUFUNCS.get(op) or UFUNCS[op])
+            uf(*args, out=target)
             return target
     exc = None
     try:
         r = real(call)
     except RealCodeRaised as e:  # the event records the refusal; TLC decides whether it is allowed
         exc = e.name
-    shape = np.broadcast_shapes(*[o.shape for o in ops])
+    # operands the call must leave alone (everything but the target of an in-place form)
+    tgt = {"iop": 0, "outself": 0, "outdiv": 1}.get(form) if ord_ == "po" else None
+    modified = ["lr"[k] for k, x in enumerate(ops) if k != tgt and x.modified()]
     evs = []
     divlike = op in ("floordiv", "mod", "divmod")
     if exc is None:
@@ -328,7 +347,30 @@ def run_arith(rc):
                 ev["q"] = exact.rat(float(qel[j]))
             if rel is not None:
                 ev["res"] = rel[j]
+        if modified:
+            ev["modified"] = modified
         evs.append(ev)
+    return evs
+
+
+def run_seq(rc):
+    """Several operations on the SAME operand objects: rc = {"ph", "ot", "steps":
+    [{"op", "ord", "form", ...}]}.  Every step is judged against the operand
+    values logged before the first use; only the target of an in-place step is
+    logged anew (it legitimately holds the result now)."""
+    p = phase_operand(make_phase(rc["ph"]))
+    o = make_other(rc["ot"])
+    evs = []
+    for n, st in enumerate(rc["steps"]):
+        step = run_arith(dict(st, ev="arith"), pre=(p, o))
+        for ev in step:
+            ev["step"] = n
+        evs += step
+        form = step[0].get("form") if step else "op"
+        if form in ("iop", "outself"):
+            p = phase_operand(p.obj)
+        elif form == "outdiv":
+            o = phase_operand(o.obj, o.kind)
     return evs
 
 
@@ -376,12 +418,24 @@ UFCMP = {"lt": np.less, "le": np.less_equal, "eq": np.equal, "ne": np.not_equal,
 def cmp_events(p, o, op, ord_, form):
     # the operator form reflects `other < phase` into phase.__gt__(other); the ufunc form
     # np.less(other, phase) reaches Phase.__array_ufunc__ with the phase as SECOND operand
-    fn = UFCMP[op] if form == "ufunc" else CMPOPS[op]
+    # "ufunc-out": the ufunc writes into a caller-supplied bool array; "ufunc-where": additionally
+    # only where a mask is set (the other elements are not computed and not judged)
+    fn = UFCMP[op] if form in ("ufunc", "ufunc-out", "ufunc-where") else CMPOPS[op]
     ops = [p, o] if ord_ == "po" else [o, p]
     shape = np.broadcast_shapes(p.shape, o.shape)
-    exc = None
+    exc, mask = None, None
     try:
-        r = real(fn, ops[0].obj, ops[1].obj)
+        if form in ("ufunc-out", "ufunc-where"):
+            target = np.zeros(shape, dtype=bool)
+            target[...] = (op in ("lt", "gt", "ne"))          # stale content: the value wrong for a tie
+            kw = {}
+            if form == "ufunc-where":
+                mask = (np.arange(max(1, target.size)).reshape(shape) % 3 != 1)
+                kw["where"] = mask
+            real(fn, ops[0].obj, ops[1].obj, out=target, **kw)
+            r = target
+        else:
+            r = real(fn, ops[0].obj, ops[1].obj)
         if r is NotImplemented or isinstance(r, bool) and shape:
             r = np.broadcast_to(r, shape)
         rr = np.broadcast_to(np.asarray(r, dtype=bool), shape).reshape(-1)
@@ -389,7 +443,9 @@ def cmp_events(p, o, op, ord_, form):
         exc = e.name
     evs = []
     for j, idx in enumerate(_idx(shape)):
-        ev = {"ev": "cmp", "op": op, "ord": ord_, "other": o.kind,
+        if mask is not None and not mask[idx]:
+            continue
+        ev = {"ev": "cmp", "op": op, "ord": ord_, "other": o.kind, "form": form or "operator",
               "l": ops[0].x(shape, idx), "r": ops[1].x(shape, idx)}
         if exc is not None:
             ev["exc"] = exc
@@ -595,7 +651,7 @@ def run_roundtrip(rc):
     return [ev]
 
 
-RUNNERS = {"arith": run_arith, "trig": run_trig, "cmp": run_cmp, "red": run_red, "hist": run_hist,
+RUNNERS = {"arith": run_arith, "seq": run_seq, "trig": run_trig, "cmp": run_cmp, "red": run_red, "hist": run_hist,
            "from_string": run_from_string, "to_string": run_to_string, "roundtrip": run_roundtrip}
 
 
@@ -676,7 +732,9 @@ def violation_key(ev, clauses):
     if k == "trig":
         return "%s:%s" % (ev["fn"], c)
     if k == "cmp":
-        return "cmp:%s[%s%s]:%s:%s:%s" % (ev["op"], _flag(ev["l"]), _flag(ev["r"]), ev["other"], ev["ord"], c)
+        form = ev.get("form", "operator")
+        return "cmp:%s[%s%s]:%s:%s:%s" % (ev["op"], _flag(ev["l"]), _flag(ev["r"]), ev["other"],
+                                          ev["ord"] + ("" if form == "operator" else "/" + form), c)
     if k == "red":
         return "%s:%s%s:%s" % (ev["fn"], ev["form"], "/after-in-place-update-through-a-view" if ev.get("hist") else "", c)
     if k == "from_string":
